@@ -14,7 +14,7 @@ RULE = ("(c) schedules: for a tree whose 5 (quick) / 6 (thorough) files all pass
         "content; hook E6 first gathers what the collector would receive, then delivers it in the selected order), one "
         "seam at a time, plus {identity, reverse}^4 across the seams, and the same for a tree with hard links next to a copy under "
         "--rf-under 3 / --rf-over 2 / --rf-under 2 (all 5! orders per seam); (a) every --threads spec name in {none, main, "
-        "default, ssd} x (r,s) in {0,1,2,64}^2 and pairs main:x + default:y; (b) every permutation of 3-4 roots and "
+        "default, ssd} x (r,s) in {0,1,2,64}^2 and pairs main:x + default:y, and 8 large-pool specs x transforms using $IN / $OUT on a tree with equal base names in different directories; (b) every permutation of 3-4 roots and "
         "--stdin, --stdin together with --transform (fclones starts child processes that inherit its descriptors: both orders of 'child runs' / 'fclones signals the child' at every signal the run sends, by pausing the subject at the kill call), and overlapping roots (r, r/sub) in both orders x walking-pool sizes x {--depth 1/2, --hidden, -L}; (d) hash function x --max-prefix-size x --max-suffix-size x disk kind x cache. A state is one complete "
         "execution of the real binary under one schedule/configuration; transitions are the messages delivered at the "
         "seams. Invariant: report body (lengths, hashes, paths, order) byte-identical within (a)-(c); partition into "
@@ -80,6 +80,11 @@ def cases(tier, seed):
     for t in ("multi", "seam5"):
         for ch in range(0, len(specs), 8):
             out.append({"kind": "threads", "tree": t, "specs": specs[ch:ch + 8]})
+    # transforms working on private copies ($IN) / named pipes ($OUT): equal base names in different directories
+    big = [["-t", "8"], ["-t", "64"], ["-t", "default:8,8"], ["-t", "main:1", "-t", "default:16,16"], ["-t", "1"],
+           ["-t", "ssd:32,32"], ["-t", "default:2,64"], ["-t", "main:64", "-t", "default:64,1"]]
+    for tr in (["--transform", "cat $IN"], ["--transform", "fcv-tr keep $IN $OUT"]):
+        out.append({"kind": "threads", "tree": "multi", "specs": big, "args": tr, "repeat": 2})
     out.append({"kind": "roots", "tree": "multi"})
     # overlapping input paths: the result may depend neither on their order nor on the size of the walking pool
     for extra in ([], ["--depth", "1"], ["--depth", "2"], ["--hidden"], ["-L"]):
@@ -203,8 +208,9 @@ def evaluate(case):
                     transitions += sum(counts.values())
         elif case["kind"] == "threads":
             for spec in case["specs"]:
-                check("threads:" + " ".join(spec), spec + roots, env0, "threads")
-                transitions += 1
+                for rep in range(case.get("repeat", 1)):
+                    check("threads:%s:%s:%d" % (" ".join(case.get("args", [])), " ".join(spec), rep), spec + roots, env0, "threads")
+                    transitions += 1
         elif case["kind"] == "roots":
             for perm in itertools.permutations(roots):
                 check("roots:" + " ".join(perm), list(perm), env0, "root_order")
